@@ -95,6 +95,29 @@ def job_map_parameters(res, pid):
                         elif 'ES3_ffNS_9SourceMap' in c_: angs['static linear'] = ins['args'][3][1]
         same = len(set(angs.values())) == 1 and len(angs) == 2
         res.obs.append(Ob('main: the static and the dynamic linear RF map are constructed with one and the same angle value (%s)' % sorted(set(map(str, angs.values()))), 'holds' if same else 'violated', key='main-angle', detail=str(angs)))
+        # the sinusoidal model: static and dynamic map get the same revolution part, voltage amplitude, RF frequency and loss voltage (the static map takes floats: conversions are looked through)
+        defs_ = {}
+        for b in f.order:
+            for ins in f.blocks[b]:
+                if ins.get('dst'): defs_[ins['dst']] = ins
+        def canon(v, depth=0):
+            if depth < 6 and isinstance(v, tuple) and v[0] == 'local' and v[1] in defs_:
+                d = defs_[v[1]]
+                if d['op'] in ('fptrunc', 'fpext'): return canon(d['a'], depth + 1)
+                if d['op'] == 'load': return ('load', canon(d['ptr'], depth + 1))
+            return v
+        sin = {}
+        for b in f.order:
+            for ins in f.blocks[b]:
+                if ins['op'] in ('call', 'invoke') and ins['callee'][0] == 'global':
+                    c_ = ins['callee'][1]
+                    if c_.startswith('_ZN4vfps9RFKickMapC1') and 'ES3_ffffNS_9SourceMap' in c_: sin['static'] = [canon(a[1]) for a in ins['args'][3:7]]
+                    elif c_.startswith('_ZN4vfps16DynamicRFKickMapC1') and 'jjddddfff' in c_: sin['dynamic'] = [canon(a[1]) for a in ins['args'][5:9]]
+        if len(sin) == 2:
+            names = ('revolution part', 'voltage amplitude', 'RF frequency', 'loss voltage'); bad_ = [nm for nm, x, y in zip(names, sin['static'], sin['dynamic']) if x != y]
+            res.obs.append(Ob('main: the static and the dynamic sinusoidal RF map are constructed with the same revolution part, voltage amplitude, RF frequency and loss voltage', 'holds' if not bad_ else 'violated', key='main-sin-parameters',
+                              detail='' if not bad_ else 'differ in: %s (static %s, dynamic %s)' % (bad_, sin['static'], sin['dynamic']), cex=None if not bad_ else {'replay': 'structural', 'differ': bad_}))
+        else: raise Unsupported('main: expected one static and one dynamic sinusoidal RF construction, found %s' % sorted(sin))
     if pid == 'C04':
         # the constant: the decrement handed to the map is fptrunc(2.0 / (steps * (x * y))) (x, y: synchrotron frequency and damping time as main holds them) - read off the defining instructions
         f = mod.funcs['main']; defs = {}
